@@ -9,7 +9,10 @@
 //	queue 1: job 1 = one high-priority task of `fail` cpus whose allocate callback fails,
 //	                 then `more` pending tasks of 1 cpu;   queue 2: job 2 = `other` pending 1-cpu tasks
 //
-// in = the cycle spec tokens (sched.CycleSpec.Enc) ++ [id of the failing task]
+// in = the cycle spec tokens (sched.CycleSpec.Enc) ++ [id of the task whose allocate callback fails (0 = none),
+//
+//	id of the task whose bind the cache refuses at Commit (0 = none; a refused bind is rolled back
+//	through the deallocate handlers exactly once)]
 // The verdict is law 103 of the shared cycle entry (CycleLaws.law_queues), evaluated on the final
 // session: for every queue, on every dimension a newly placed task requests, the requests of the
 // pods that hold quota are within deserved and capability.
@@ -20,17 +23,28 @@ import (
 	"verif/harness/internal/vh"
 )
 
-func runFaultCase(in []int64) (lawIn []int64) {
+func runFaultCase(in []int64) (lawIn, guardIn []int64) {
 	r := &sched.Tok{T: in}
 	spec := sched.DecCycleSpec(r)
 	failID := r.Next()
+	refuseID := int64(0)
+	if r.I < len(in) {
+		refuseID = r.Next()
+	}
 	cw := sched.NewCycleWorld(spec)
-	cw.Rec.ErrFor[failID] = true
+	if failID != 0 {
+		cw.Rec.ErrFor[failID] = true
+	}
+	if refuseID != 0 {
+		// cache.AddBindTask refuses this task at Commit: Statement.Commit must undo the placement ONCE
+		cw.Cache.RefuseBind[refuseID] = true
+	}
 	limits := cw.QueueLimits()
 	cw.RunActions()
 	lawIn = append(lawIn, spec.Enc(sched.EpsUnits)...)
 	lawIn = append(lawIn, limits...)
 	lawIn = append(lawIn, sched.EncCops(nil)...)
+	guardIn = append([]int64{}, lawIn...) // spec ++ limits ++ no choices: what law 121 decodes
 	lawIn = append(lawIn, cw.EncLawDump()...)
 	binds := []int64{}
 	for _, e := range cw.Trace {
@@ -39,10 +53,10 @@ func runFaultCase(in []int64) (lawIn []int64) {
 		}
 	}
 	lawIn = append(lawIn, int64(len(binds)))
-	return append(lawIn, binds...)
+	return append(lawIn, binds...), guardIn
 }
 
-func faultSpec(nodeCPU, fail, more, other int64, failFirst bool) []int64 {
+func faultSpec(nodeCPU, fail, more, other int64, failFirst bool, refuseBind bool) []int64 {
 	spec := sched.CycleSpec{PGPhase: map[int64]int64{1: 2, 2: 2}, Proportion: true, Actions: []int64{1}}
 	spec.Nodes = []sched.NodeSpec{{ID: 1, Has: true, CPU: nodeCPU * 1000, Mem: 64 << 20, Pods: 64}}
 	spec.Queues = []sched.QueueSpec{{ID: 1, Open: true, Weight: 1}, {ID: 2, Open: true, Weight: 1}}
@@ -61,14 +75,17 @@ func faultSpec(nodeCPU, fail, more, other int64, failFirst bool) []int64 {
 		tid++
 		spec.Tasks = append(spec.Tasks, sched.TaskSpec{ID: tid, Job: 2, Role: 1, Prio: 1, CPU: 1000, Mem: 1 << 19, Status: sched.SPending})
 	}
-	return append(spec.Enc(sched.EpsUnits), 1)
+	if refuseBind {
+		return append(spec.Enc(sched.EpsUnits), 0, 1)
+	}
+	return append(spec.Enc(sched.EpsUnits), 1, 0)
 }
 
 func genFaultCase(r *vh.Rng) []int64 {
 	if r.Chance(1, 2) {
 		// directed: queue 1 asks for more than its half; the failing task comes first
 		node := int64(r.Range(4, 10))
-		return faultSpec(node, int64(r.Range(1, 3)), node/2+int64(r.Range(1, 3)), node/2+int64(r.Range(0, 3)), !r.Chance(1, 5))
+		return faultSpec(node, int64(r.Range(1, 3)), node/2+int64(r.Range(1, 3)), node/2+int64(r.Range(0, 3)), !r.Chance(1, 5), r.Chance(1, 2))
 	}
 	// a random cycle of the shared generator with one pending task failing
 	spec := sched.GenCycle(r, true)
@@ -78,5 +95,8 @@ func genFaultCase(r *vh.Rng) []int64 {
 			fail = t.ID
 		}
 	}
-	return append(spec.Enc(sched.EpsUnits), fail)
+	if r.Chance(1, 2) {
+		return append(spec.Enc(sched.EpsUnits), 0, fail)
+	}
+	return append(spec.Enc(sched.EpsUnits), fail, 0)
 }
